@@ -1,7 +1,9 @@
 /-
 C10, CAM part: the rules of the property text / TS 103 900 §6.1.3 as monitors over the event log
 (op, emitted CAM) of a run.  Written from the property text with its own numbers (100 ms, 1 s, 500 ms,
-4 deg / 4 m / 0.5 m/s); nothing here refers to the state of the model.
+4 deg / 4 m / 0.5 m/s); nothing here refers to the state of the model.  An emitted CAM is a TRANSMISSION
+(a PDU handed to BTP), whether or not the sender's bookkeeping noticed it.  `hav` is the distance function
+(any function): the reference position it is applied to is tracked by the monitor from the log.
 -/
 import FlexModel.Fac.CamTM
 import FlexModel.Fac.CamMonitor
@@ -28,7 +30,7 @@ def within (last : Option Nat) (d now : Nat) : Bool :=
 def beyond (last : Option Nat) (d now : Nat) : Bool :=
   match last with | none => false | some t => decide (t + d < now)
 
-/-! ### silent before start / after stop -/
+/-! ### silent before start / after stop (also for a callback that was in flight when `stop()` ran) -/
 structure SilentSt where
   active : Bool := false
   deriving Repr
@@ -37,8 +39,9 @@ def silentMon (m : SilentSt) : Ev → Option SilentSt
   | (.start, none) => some { active := true }
   | (.stop, none) => some { active := false }
   | (.report _, none) => some m
-  | (.check _ _ _, none) => some m
-  | (.check _ _ _, some _) => if m.active then some m else none
+  | (.expire _, none) => some m
+  | (.check _ _, none) => some m
+  | (.check _ _, some _) => if m.active then some m else none
   | (_, some _) => none
 
 /-! ### consecutive CAMs of one activation are at least T_GenCamMin apart -/
@@ -50,38 +53,56 @@ def minGapMon (m : MinGapSt) : Ev → Option MinGapSt
   | (.start, _) => some (if m.active then m else { active := true, last := none })
   | (.stop, _) => some { m with active := false }
   | (.report _, _) => some m
-  | (.check _ _ _, none) => some m
-  | (.check now _ _, some c) =>
+  | (.expire _, _) => some m
+  | (.check _ _, none) => some m
+  | (.check now _, some c) =>
     if c.t = now ∧ noneOrSince m.last T_GenCamMin now = true
     then some { m with last := some now } else none
 
-/-! ### at most T_GenCamMax + P apart while serviceable (report present, send ok, checks ≤ P apart) -/
+/-! ### ALL consecutive CAMs, across stop/start cycles too, are at least T_GenCamMin apart -/
+structure GMinGapSt where
+  last : Option Nat := none
+
+def gMinGapMon (m : GMinGapSt) : Ev → Option GMinGapSt
+  | (.check now _, some c) =>
+    if c.t = now ∧ noneOrSince m.last T_GenCamMin now = true then some { last := some now } else none
+  | (_, _) => some m
+
+/-! ### at most T_GenCamMax + P apart while serviceable (report present, no failure, checks ≤ P apart); the first
+serviceable check of an activation sends (`hold`: unless less than T_GenCamMin has passed since the last CAM of the
+previous activation) -/
 structure MaxGapSt where
   active : Bool := false
   hasCur : Bool := false
-  last : Option Nat := none
+  last : Option Nat := none     -- last CAM of this activation
   prev : Option Nat := none     -- time of the previous check of this activation
   clean : Bool := true          -- every check since the last CAM was serviceable
+  glast : Option Nat := none    -- last CAM of any activation
 
 def near (prev : Option Nat) (now P : Nat) : Bool :=
   match prev with
   | none => true
   | some p => decide (p ≤ now ∧ now ≤ p + P)
 
-def maxGapMon (P : Nat) (m : MaxGapSt) : Ev → Option MaxGapSt
+def heldSpec (hold : Bool) (glast : Option Nat) (now : Nat) : Bool :=
+  hold && (match glast with | some g => decide (now < g + T_GenCamMin) | none => false)
+
+def maxGapMon (hold : Bool) (P : Nat) (m : MaxGapSt) : Ev → Option MaxGapSt
   | (.start, _) => some (if m.active then m else { m with active := true, last := none, prev := none, clean := true })
   | (.stop, _) => some { m with active := false }
   | (.report _, _) => some { m with hasCur := true }
-  | (.check now _ ok, out) =>
+  | (.expire _, _) => some m
+  | (.check now f, out) =>
     if !m.active then some m
     else
-      let good := m.hasCur && ok && near m.prev now P
+      let good := m.hasCur && decide (f = Fail.none) && near m.prev now P
       match out with
       | some _ =>
         if (m.clean && good) = true → within m.last (T_GenCamMax + P) now = true
-        then some { m with last := some now, prev := some now, clean := true } else none
+        then some { m with last := some now, prev := some now, clean := true, glast := some now } else none
       | none =>
-        if good = true ∧ m.last = none then none      -- the first CAM of an activation is immediate
+        if good = true ∧ m.last = none ∧ heldSpec hold m.glast now = false
+        then none                                      -- the first CAM of an activation is immediate
         else if (m.clean && good) = true ∧ beyond m.last (T_GenCamMax + P) now = true
         then none                                      -- overdue and still nothing
         else some { m with prev := some now, clean := m.clean && good }
@@ -92,7 +113,7 @@ structure RespSt where
   cur : Option Tpv := none
   last : Option Nat := none
   refHeading : Option Nat := none    -- heading lastly included in a CAM [0.01 deg]
-  refPos : Bool := false             -- a position was included in a CAM
+  refPos : Option Pos := none        -- position lastly included in a CAM
   refSpeed : Option Nat := none      -- speed lastly included in a CAM [mm/s]
 
 /-- circular difference of two headings in 0.01 deg -/
@@ -100,32 +121,35 @@ def circDiff (a b : Nat) : Nat :=
   let d := if a ≤ b then b - a else a - b
   min d (36000 - d)
 
-def specDyn (m : RespSt) (r : Tpv) (dist : Nat) : Bool :=
+def specDyn (hav : Pos → Pos → Nat) (m : RespSt) (r : Tpv) : Bool :=
   (match r.heading, m.refHeading with
    | some h, some lh => decide (circDiff h lh > 400)
    | _, _ => false)
-  || (r.hasPos && m.refPos && decide (dist > 4000))
+  || (match r.pos, m.refPos with
+      | some p, some q => decide (hav q p > 4000)
+      | _, _ => false)
   || (match r.speed, m.refSpeed with
       | some v, some w => decide (v > w + 500 ∨ w > v + 500)
       | _, _ => false)
 
-def respMon (m : RespSt) : Ev → Option RespSt
+def respMon (hav : Pos → Pos → Nat) (m : RespSt) : Ev → Option RespSt
   | (.start, _) => some (if m.active then m else { active := true, cur := m.cur })
   | (.stop, _) => some { m with active := false }
   | (.report r, _) => some { m with cur := some r }
-  | (.check now dist ok, out) =>
+  | (.expire _, _) => some m
+  | (.check now f, out) =>
     if !m.active then some m
     else match m.cur with
       | none => some m
       | some r =>
         match out with
         | none =>
-          if ok = true ∧ since m.last T_GenCamMin now = true ∧ specDyn m r dist = true
+          if f = Fail.none ∧ since m.last T_GenCamMin now = true ∧ specDyn hav m r = true
           then none else some m
         | some _ =>
           some { m with last := some now,
                         refHeading := match r.heading with | some h => some h | none => m.refHeading,
-                        refPos := r.hasPos || m.refPos,
+                        refPos := match r.pos with | some p => some p | none => m.refPos,
                         refSpeed := match r.speed with | some v => some v | none => m.refSpeed }
 
 /-! ### low-frequency container: in the first CAM and in every CAM ≥ 500 ms after the last one carrying it, in no other -/
@@ -137,8 +161,9 @@ def lfMon (m : LfSt) : Ev → Option LfSt
   | (.start, _) => some (if m.active then m else { active := true, lastLf := none })
   | (.stop, _) => some { m with active := false }
   | (.report _, _) => some m
-  | (.check _ _ _, none) => some m
-  | (.check now _ _, some c) =>
+  | (.expire _, _) => some m
+  | (.check _ _, none) => some m
+  | (.check now _, some c) =>
     let want := noneOrSince m.lastLf T_LF now
     if c.lf = want then some { m with lastLf := if c.lf then some now else m.lastLf } else none
 
@@ -151,7 +176,7 @@ structure LatestSt where
 
 def latestMon (m : LatestSt) : Ev → Option LatestSt
   | (.report r, _) => some { cur := some r }
-  | (.check now _ _, some c) =>
+  | (.check now _, some c) =>
     match m.cur with
     | none => none
     | some r =>
